@@ -5,6 +5,7 @@ CONSTANTS
   L = 2000
   Step = 500
   MaxTime = 6000
+  Dev_GateUsesOldToken = FALSE
   Dev_ServerRekeyInPlace = TRUE
   Part = "machine"
 INIT Init
